@@ -13,6 +13,7 @@
 -/
 import Mathlib.Data.Rat.Floor
 import PsutilModel.Proofs.C15Examples
+import PsutilModel.Proofs.C15Term
 import PsutilModel.Model.C15Gen
 namespace Psutil.C15
 open Spec
@@ -428,6 +429,18 @@ theorem C15_wait_procs_no_timeout_all_gone :
 
 end
 
+/-- `wait_procs` with a timeout τ ≥ 0 comes back: with more than N + τ·N + 2 passes (N distinct
+    processes) and τ/0.0001 + 1 iterations per inner wait the run can end neither in outOfFuel nor in a
+    blocking waitpid; the only exception that can escape is ValueError (a status word that is not a
+    termination status). Together with `C15_wait_procs_deadline`: it returns, before deadline + 40 ms. -/
+theorem C15_wait_procs_terminates (envOf : Nat → Env) (procs : List Nat) (τ : Rat) (hasCb : Bool)
+    (order : Nat → List Nat → List Nat) (fuel : Nat) (w : WP)
+    (hperm : ∀ k l, (order k l).Perm l) (hf : Fresh envOf w) (hτ : 0 ≤ τ)
+    (h1 : ((dedup procs).length : Rat) + τ * ((dedup procs).length : Rat) + 2 < (fuel : Rat))
+    (h2 : τ * 10000 + 1 ≤ (fuel : Rat)) (o : Outcome)
+    (h : waitProcs cfg envOf procs (some τ) hasCb order fuel w = .error o) : o = .valueError :=
+  waitProcs_terminates cfg_good envOf hasCb fuel order hperm (by decide) procs τ w hτ hf h1 h2 o h
+
 /-- a negative timeout makes `wait_procs` raise ValueError before touching anything -/
 theorem C15_wait_procs_negative (envOf : Nat → Env) (procs : List Nat) (τ : Rat) (hasCb : Bool)
     (order : Nat → List Nat → List Nat) (fuel : Nat) (w : WP) (hτ : τ < 0) :
@@ -450,6 +463,11 @@ example : obsWait exOther 8 (some (3 / 10000)) 50 0 0 =
 
 /-- the fuel bound of the termination theorem is met by small numbers: 10 ms needs 102 iterations -/
 example : ⌈((1 : ℚ) / 100) * 10000⌉₊ + 2 ≤ 102 := by norm_num
+
+/-- the fuel bounds of `C15_wait_procs_terminates` are small: 3 processes, 2 s → 20 001 iterations -/
+example : ((dedup [1, 2, 3, 2]).length : ℚ) + 2 * ((dedup [1, 2, 3, 2]).length : ℚ) + 2 < ((20001 : ℕ) : ℚ) ∧
+    (2 : ℚ) * 10000 + 1 ≤ ((20001 : ℕ) : ℚ) := by
+  norm_num [dedup]
 
 /-- objects that have never been waited for form a fresh state -/
 example (envOf : Nat → Env) (now : Rat) :
